@@ -73,7 +73,15 @@ type Ptr struct {
 	Path []int
 }
 
-type backing struct{ cells []*Obj }
+type backing struct {
+	cells []*Obj
+	// aliasBuf/aliasBase: this backing is the spare capacity of a bytes.Buffer as handed out by AvailableBuffer: its
+	// element j lies at offset aliasBase+j of the buffer's storage. Appending within aliasCap writes there, and if the
+	// buffer has grown over that region in the meantime the committed bytes are overwritten (absint_lib.go).
+	aliasBuf  *BufV
+	aliasBase int
+	aliasCap  int
+}
 
 type SliceV struct {
 	B           *backing
@@ -99,13 +107,19 @@ type MapV struct {
 	Keys    []string // insertion order (iteration uses sorted order and sets Interp.MapOrderUsed)
 	Lookups *[]string
 	Zero    AV
+	// KeyV keeps the key values of keys that are not strings or integers (arrays, structs, pointers), for iteration
+	KeyV map[string]AV
 }
 
 // SeqV models an iter.Seq[string] returned by a modelled library function.
 type SeqV struct{ Items []AV }
 
 // BufV models a bytes.Buffer / strings.Builder.
-type BufV struct{ S []byte }
+type BufV struct {
+	S []byte
+	// Spare: modelled spare capacity beyond len(S) (0: AvailableBuffer hands out nothing that aliases the buffer)
+	Spare int
+}
 
 // FloatV is a floating-point value (go/constant cannot hold NaN or ±Inf).
 type FloatV struct{ F float64 }
@@ -908,9 +922,16 @@ func (ip *Interp) loop(fr *aframe, b *ssa.BasicBlock, cur *ssa.Instruction) AV {
 				if !ok {
 					rtPanic("assignment to entry in nil map")
 				}
-				k := mapKey(ip.operand(fr, x.Key))
+				kav := ip.operand(fr, x.Key)
+				k := mapKey(kav)
 				if _, had := m.M[k]; !had {
 					m.Keys = append(m.Keys, k)
+				}
+				if _, basic := kav.(constant.Value); !basic {
+					if m.KeyV == nil {
+						m.KeyV = map[string]AV{}
+					}
+					m.KeyV[k] = copyVal(kav)
 				}
 				m.M[k] = copyVal(ip.operand(fr, x.Value))
 			case *ssa.Go:
@@ -1559,6 +1580,8 @@ func (it *iterV) next(ip *Interp, isString bool) AV {
 			ood("map key")
 		}
 		kv = kInt(n)
+	} else if v, ok := it.m.KeyV[k]; ok {
+		kv = copyVal(v)
 	} else {
 		ood("iteration over a map with non-basic keys")
 	}
@@ -1763,7 +1786,21 @@ func (ip *Interp) builtin(name string, args []AV, cc *ssa.CallCommon) AV {
 		if len(cur)+len(add) == 0 {
 			return args[0]
 		}
-		return ip.mkSlice(append(cur, add...))
+		out := ip.mkSlice(append(cur, add...))
+		if s, ok := args[0].(*SliceV); ok && s.B != nil && s.B.aliasBuf != nil && s.Lo == 0 && len(cur)+len(add) <= s.B.aliasCap {
+			// still inside the buffer's spare capacity: the bytes land in the buffer's own storage
+			ab := s.B.aliasBuf
+			for j := len(cur); j < len(cur)+len(add); j++ {
+				if pos := s.B.aliasBase + j; pos < len(ab.S) {
+					if k, isK := add[j-len(cur)].(constant.Value); isK {
+						v, _ := constant.Int64Val(k)
+						ab.S[pos] = byte(v)
+					}
+				}
+			}
+			out.B.aliasBuf, out.B.aliasBase, out.B.aliasCap = ab, s.B.aliasBase, s.B.aliasCap
+		}
+		return out
 	case "copy":
 		dst, ok := args[0].(*SliceV)
 		if !ok {
@@ -2299,9 +2336,11 @@ func (ip *Interp) model(fn *ssa.Function, args []AV) (res AV, ok bool) {
 				switch fn.Name() {
 				case "WriteByte":
 					b.S = append(b.S, byte(n(1)))
+					b.Spare = max(0, b.Spare-1)
 					return NilV{}, true
 				case "WriteString":
 					b.S = append(b.S, s(1)...)
+					b.Spare = max(0, b.Spare-len(s(1)))
 					return TupleV{kInt(int64(len(s(1)))), NilV{}}, true
 				case "WriteRune":
 					b.S = utf8.AppendRune(b.S, rune(n(1)))
@@ -2310,6 +2349,7 @@ func (ip *Interp) model(fn *ssa.Function, args []AV) (res AV, ok bool) {
 					if sv, ok := args[1].(*SliceV); ok {
 						for _, e := range sv.elems() {
 							b.S = append(b.S, byte(avInt(e)))
+							b.Spare = max(0, b.Spare-1)
 						}
 						return TupleV{kInt(int64(sv.Hi - sv.Lo)), NilV{}}, true
 					}
@@ -2322,6 +2362,9 @@ func (ip *Interp) model(fn *ssa.Function, args []AV) (res AV, ok bool) {
 					b.S = b.S[:0]
 					return TupleV{}, true
 				case "Grow":
+					if g := n(1); g > b.Spare {
+						b.Spare = g
+					}
 					return TupleV{}, true
 				case "Truncate":
 					if n(1) < 0 || n(1) > len(b.S) {
